@@ -220,6 +220,8 @@ func init() {
 				Bound: "all cyclic edge lists with <=4 edges x greedy-random with every RNG answer sequence"},
 			{Name: "G-deep-cheap", Space: spaceG(d+1, d+1, tierPick(tier, 0, 5), nil), Eval: stdEval("C02", staticGrid(cheap), or),
 				Bound: fmt.Sprintf("all edge lists with %d edges (thorough: <=5 nodes) x {greedy,dfs} x {ns,lp} x valign x polyline x virtual {off,on}", d+1)},
+			{Name: "macro-3", Space: spaceMacro(3, false), Eval: stdEval("C02", staticGrid(gridSpec{P1: allP1, P2: allP2, P4: []int{0, 4}, P5: []int{2}, SZ: []int{4}, Virt: []bool{false, true}}.list()), or),
+				Bound: "every graph built by <=3 gadget insertions (shapes with up to 13 edges) x {greedy,dfs} x {ns,lp} x {sink,bk} x polyline x partial size map x virtual {off,on}"},
 			{Name: "seeds", Space: spaceSeeded(seedWitnesses, tierPick(tier, 1, 2)), Eval: stdEval("C02", staticGrid(cheap), or),
 				Bound: "all states within 1 (thorough 2) edit operations of the recorded witnesses"},
 		}
